@@ -155,13 +155,15 @@ def run(tier: str, seed: int) -> Report:
 
 def _drive(rep: Report, tier: str, seed: int, P: Any, d: Path, futs: dict[str, Any]) -> Report:
     quick = tier == "quick"
-    phase: dict[str, float] = {}
+    phase: dict[str, Any] = {}
     t_phase = time.time()
+    c_phase = time.process_time()
 
     def mark(name: str) -> None:
-        nonlocal t_phase
-        phase[name] = round(time.time() - t_phase, 1)
+        nonlocal t_phase, c_phase
+        phase[name] = {"wall": round(time.time() - t_phase, 1), "cpu_py": round(time.process_time() - c_phase, 1)}
         t_phase = time.time()
+        c_phase = time.process_time()
 
     batch = P.Batch(chunk=5000 if quick else 12000, jobs=4 if quick else 6)
     rnd = random.Random(seed)
